@@ -177,6 +177,7 @@ static Plan gen_merge(const std::string &prop, const std::string &tier, uint64_t
 		p.seti("observe", 0);
 		p.seti("mergefail", 0);
 		int nops = 5 + (int)r.below(70);
+		if (r.chance(1, tier == "thorough" ? 25 : 150)) { p.op("sweepseek", { std::to_string(r.chance(1, 2) ? 0 : r.below(4)), "30" }); nops = 0; }
 		bool open[4] = { false, false, false, false };
 		auto target = [&](bool cur) {
 			char t[48];
